@@ -58,6 +58,10 @@ func buildScopeProgram(hist []scEvent) []*model.N {
 		switch e.Op {
 		case "decl":
 			add(model.Var(e.Name, K))
+		case "declL": // comma-list declaration
+			add(model.VarList([]string{e.Name, "l" + id}, []*model.N{K, model.Num(float64(10*(i+1) + 1))}))
+		case "declN": // declaration without initialiser, then a value
+			add(model.Var(e.Name, nil), model.Print(model.Id(e.Name)), model.ExprS(model.Asg(e.Name, K)))
 		case "asg":
 			add(model.ExprS(model.Asg(e.Name, K)))
 		case "read":
@@ -162,6 +166,10 @@ func C03(c *fw.Ctx) {
 				rec()
 			}
 			hist = hist[:len(hist)-1]
+		}
+		for _, n := range []string{"x", "y"} {
+			try(scEvent{"declL", n}, nil)
+			try(scEvent{"declN", n}, nil)
 		}
 		for _, n := range names {
 			try(scEvent{"decl", n}, nil)
